@@ -1,12 +1,29 @@
 (* C10 — encoder output is always decodable, standardised and stable under re-encoding.
-   STATUS (partial): ring / branch symbols carry a suffix 1..3 exactly when span-1 / length-1 is
-   below 16^3, and the Q symbols decode back to the same number; the rest (every emitted atom
-   symbol is in the decoder's grammar, standardisation, re-encoding stability) is validated per
-   input by the extracted symbol_in_grammar and by the implementation's own three strings. *)
+   PROVED for all inputs (proofs/EncShape.v, EncTokens.v, EncAtoms.v, EncGood.v, EncDecodes.v, EncStd.v):
+   (a) DECODABLE.  Whatever SMILES the encoder accepts (either value of strict and of attribute) under an accepted
+       table: every symbol it emits is an atom symbol printed from an atom the SMILES reader built (kekulize only clears
+       the aromatic flag, the inversion pass only flips @/@@), an index symbol, a branch symbol or a ring symbol; each
+       of them is read back by the decoder's own symbol reader (the atom symbol as the very atom it was printed from),
+       the string tokenises back into exactly those symbols, and decoder() returns - under three hypotheses, each
+       a computation the harness evaluates on every input it runs (spec/EncHyp.v):
+         - every ring/branch symbol of the output carries the suffix 1, 2 or 3 (by C10_suffix_partial this is the
+           property's "ring spans and branch lengths below 16^3");
+         - no atom is written with more explicit hydrogens than the capacity the table gives its (element, charge);
+           with strict=True the implementation rejects such input, but deriving that inside the model needs
+           "bond counts are never negative", an invariant over the reader and kekulize that is NOT proved: hence _partial;
+         - the input has fewer than 10^4300 characters (str() of a count of '+' signs is subject to the interpreter's
+           digit limit just as int() is).
+   (b) STANDARDISED.  The symbol is a function of the atom and injective on the atoms the encoder prints (two atoms
+       get the same symbol exactly when they are equal), and the spellings the property names ([E+]/[E+1], [E++]/[E+2],
+       [EH]/[EH1], [E]/[EH0], ...) are read as the same atom, for EVERY element, with and without an isotope.
+   (c) ring / branch symbols carry a suffix 1..3 exactly when span-1 / length-1 is below 16^3, and the Q symbols
+       decode back to the same number.
+   NOT proved: stability of the string under decode/encode (validated per input by the implementation's own three
+   strings and by the model's). *)
 From Coq Require Import String List ZArith NArith Bool.
 Import ListNotations.
 From Selfies Require Import Base Generated Atoms Grammar Decoder PySet Matching Smiles Kekulize Encoder
-  IndexSpec IndexCode Reader RoundTrip EncoderFacts PureFacts.
+  IndexSpec IndexCode Reader RoundTrip EncoderFacts PureFacts AlphaClosure WriterAtoms EncHyp EncShape EncAtoms EncGood EncDecodes EncStd.
 Local Open Scope string_scope.
 
 Theorem C10_suffix_partial : forall n syms,
@@ -18,5 +35,53 @@ Theorem C10_Q_symbols_decode_back_partial : forall n : N,
                Forall (fun s => In s index_alphabet) syms.
 Proof. intro n. destruct (from_index_spec n) as (syms & H1 & H2 & H3 & _). eauto. Qed.
 
+Theorem C10_encoder_output_decodes_partial : forall T smiles strict attribute s maps attribute',
+  table_ok T ->
+  encoder T smiles strict attribute = Ok (s, maps) ->
+  Qlen (length smiles) ->
+  (forall m0, smiles_to_mol smiles attribute = Ok m0 -> Forall (cap_ok T) (atoms_of m0)) ->
+  Forall suffix_small (flat_map fst (tokenize_all s false)) ->
+  exists out, decoder T s false attribute' = Ok out.
+Proof. exact encoder_output_decodes. Qed.
+
+Theorem C10_encoder_output_decodes_checkable_partial : forall T smiles strict attribute s maps attribute',
+  table_okb T = true ->
+  encoder T smiles strict attribute = Ok (s, maps) ->
+  Qlen (length smiles) ->
+  match smiles_to_mol smiles attribute with Ok m0 => forallb (cap_okb T) (atoms_of m0) | Err _ => true end = true ->
+  forallb suffix_smallb (flat_map fst (tokenize_all s false)) = true ->
+  exists out, decoder T s false attribute' = Ok out.
+Proof. exact encoder_output_decodes_checkable. Qed.
+
+Example C10_decodes_hypotheses_met :
+  let smi := lit "OC(=O)c1ccc(/C=C/[C@@H](F)[13CH3])cc1[N+](=O)[O-].[Na+]" in
+  table_okb default_constraints = true /\ Qlen (length smi) /\
+  match smiles_to_mol smi false with Ok m0 => forallb (cap_okb default_constraints) (atoms_of m0) | Err _ => false end = true /\
+  match encoder default_constraints smi true false with
+  | Ok (s, _) => forallb suffix_smallb (flat_map fst (tokenize_all s false)) && (10 <? length (flat_map fst (tokenize_all s false)))%nat
+  | Err _ => false end = true.
+Proof. cbv zeta. split; [vm_compute; reflexivity|]. split; [right; vm_compute; reflexivity|]. split; vm_compute; reflexivity. Qed.
+
+
+(* (b) one symbol per atom, one atom per symbol *)
+Theorem C10_symbol_determines_atom : forall a1 a2 t, AtomShape a1 -> IntOK a1 -> AtomShape a2 -> IntOK a2 ->
+  atom_to_smiles a1 false = Ok t -> atom_to_smiles a2 false = Ok t -> a1 = a2.
+Proof. exact symbol_determines_atom. Qed.
+
+Theorem C10_printed_symbol_reads_back : forall bc a t, AtomShape a -> IntOK a -> In bc [[]; [61%N]; [35%N]; [47%N]; [92%N]] ->
+  atom_to_smiles a false = Ok t ->
+  process_atom_nocache (lit "[" ++ bc ++ t ++ lit "]")%list =
+    Ok (Some ((fst (smiles_to_bond2 (hd_error bc)) / 2)%Z, snd (smiles_to_bond2 (hd_error bc)), a)).
+Proof. exact sel_atom_parses. Qed.
+
+Theorem C10_standard_spellings : forall el p q pre, In el elements -> In (p, q) spelling_pairs -> In pre [""; "13"] ->
+  exists a, smiles_to_atom (br pre p el) = Ok (Some a) /\ smiles_to_atom (br pre q el) = Ok (Some a).
+Proof. exact standard_spellings. Qed.
+
 Print Assumptions C10_suffix_partial.
 Print Assumptions C10_Q_symbols_decode_back_partial.
+Print Assumptions C10_encoder_output_decodes_partial.
+Print Assumptions C10_encoder_output_decodes_checkable_partial.
+Print Assumptions C10_symbol_determines_atom.
+Print Assumptions C10_printed_symbol_reads_back.
+Print Assumptions C10_standard_spellings.
